@@ -177,3 +177,108 @@ package chain
 //@   loop 2 invariant !isnil(readsOp) && !isnil(allocatesOp) && !isnil(writesOp)
 //@   ensures err == nil ==> result0[0] == estBandwidth(actions, len(actions), fst(AuthFactory.MaxUnits(authFactory)))
 //@   ensures err == nil ==> result0[1] == Rules.GetBaseComputeUnits(r) + actCompute(actions, len(actions), r) + snd(AuthFactory.MaxUnits(authFactory))
+
+// ---- C11: verified blocks extend their parent ----
+//@ func HeightKey
+//@   pure
+//@ func TimestampKey
+//@   pure
+//@ func FeeKey
+//@   pure
+//@ func Rules.GetMinBlockGap
+//@   pure
+//@ func Rules.GetMinEmptyBlockGap
+//@   pure
+//@ func github.com/ava-labs/avalanchego/x/merkledb.View.GetMerkleRoot
+//@   pure
+//@   opt ignore #0
+
+// height / timestamp metadata of a state as read through state.Immutable (8-byte big endian)
+//@ spec func stRaw(im state.Immutable, k bytes) bytes = str(fst(state.Immutable.GetValue(im, k)))
+//@ spec func stOK(im state.Immutable, k bytes) bool = snd(state.Immutable.GetValue(im, k)) == nil && len(stRaw(im, k)) == 8
+//@ spec func stU64(im state.Immutable, k bytes) int = be64(stRaw(im, k), 0)
+
+// createBlockContext (C11): a block is accepted on top of a parent state only if its height is the
+// parent's height plus one and its timestamp is at least the parent's timestamp plus the minimum
+// block gap (plus the empty-block gap when it carries no transaction); the context it returns carries
+// the block's own height and timestamp (which writeBlockContext then stores: the link between a
+// block's header and its post-state metadata).
+//@ func (*Processor).createBlockContext props C11
+//@   reveal internalfees.wellFormed
+//@   let hk = HeightKey(MetadataManager.HeightPrefix(p.metadataManager))
+//@   let tk = TimestampKey(MetadataManager.TimestampPrefix(p.metadataManager))
+// sane parent metadata and rules: no wrap in height+1 / timestamp+gap
+//@   requires stOK(im, str(hk)) ==> stU64(im, str(hk)) < MAX
+//@   requires stOK(im, str(tk)) ==> stU64(im, str(tk)) <= MaxInt64 && stU64(im, str(tk)) + Rules.GetMinBlockGap(r) <= MaxInt64 && stU64(im, str(tk)) + Rules.GetMinEmptyBlockGap(r) <= MaxInt64
+//@   requires !isnil(block.StatelessBlock)
+//@   requires Rules.GetMinBlockGap(r) >= 0 && Rules.GetMinEmptyBlockGap(r) >= 0
+// the parent's fee record is a full fee-manager state and the fee rules are sane (C13's preconditions)
+//@   requires snd(state.Immutable.GetValue(im, FeeKey(MetadataManager.FeePrefix(p.metadataManager)))) == nil ==> len(fst(state.Immutable.GetValue(im, FeeKey(MetadataManager.FeePrefix(p.metadataManager))))) == 488
+//@   requires forall i int :: 0 <= i && i < 5 ==> internalfees.Rules.GetWindowTargetUnits(r)[i] > 0 && internalfees.Rules.GetUnitPriceChangeDenominator(r)[i] > 0
+//@   ensures err == nil ==> stOK(im, str(hk)) && stOK(im, str(tk))
+//@   ensures err == nil ==> block.StatelessBlock.Hght == stU64(im, str(hk)) + 1
+//@   ensures err == nil ==> block.StatelessBlock.Tmstmp >= stU64(im, str(tk)) + Rules.GetMinBlockGap(r)
+//@   ensures err == nil && len(block.StatelessBlock.Txs) == 0 ==> block.StatelessBlock.Tmstmp >= stU64(im, str(tk)) + Rules.GetMinEmptyBlockGap(r)
+//@   ensures err == nil ==> result0.height == block.StatelessBlock.Hght && result0.timestamp == block.StatelessBlock.Tmstmp
+//@   ensures err == nil ==> !isnil(result0.feeManager) && internalfees.wellFormed(result0.feeManager)
+
+// verifyParentRoot (C11): succeeds exactly when the block's recorded state root is the parent view's root
+//@ func (*Processor).verifyParentRoot props C11
+//@   ensures err == nil ==> snd(merkledb.View.GetMerkleRoot(parentView)) == nil && stateRoot == fst(merkledb.View.GetMerkleRoot(parentView))
+//@   ensures snd(merkledb.View.GetMerkleRoot(parentView)) == nil && stateRoot == fst(merkledb.View.GetMerkleRoot(parentView)) ==> err == nil
+
+// writeBlockContext (C11): the block's own height and timestamp (and the fee state) become the
+// metadata of its post-state -- which the next block's createBlockContext reads as "the parent's".
+// The three metadata keys are pairwise distinct (state/metadata.HasConflictingPrefixes, C39, is
+// checked when the VM is configured).
+//@ func (*Processor).writeBlockContext props C11
+//@   let hk = str(HeightKey(MetadataManager.HeightPrefix(p.metadataManager)))
+//@   let tk = str(TimestampKey(MetadataManager.TimestampPrefix(p.metadataManager)))
+//@   let fk = str(FeeKey(MetadataManager.FeePrefix(p.metadataManager)))
+//@   requires hk != tk && hk != fk && tk != fk
+//@   requires blockCtx.timestamp >= 0
+//@   requires !isnil(blockCtx.feeManager)
+//@   modifies gmap("vis", mu)[]
+//@   ensures err == nil ==> has(gmap("vis", mu), hk) && len(gmap("vis", mu)[hk]) == 8 && be64(gmap("vis", mu)[hk], 0) == blockCtx.height
+//@   ensures err == nil ==> has(gmap("vis", mu), tk) && len(gmap("vis", mu)[tk]) == 8 && be64(gmap("vis", mu)[tk], 0) == blockCtx.timestamp
+//@   ensures err == nil ==> has(gmap("vis", mu), fk) && len(gmap("vis", mu)[fk]) == len(blockCtx.feeManager.raw) && (forall j int :: 0 <= j && j < len(blockCtx.feeManager.raw) ==> gmap("vis", mu)[fk][j] == blockCtx.feeManager.raw[j])
+//@   ensures forall q string :: q != hk && q != tk && q != fk ==> has(gmap("vis", mu), q) == old(has(gmap("vis", mu), q)) && gmap("vis", mu)[q] == old(gmap("vis", mu)[q])
+
+//@ func RuleFactory.GetRules
+//@   pure
+//@ func (*Processor).verifySignatures
+//@   trusted
+//@   noframe
+//@ func (*Processor).waitSignatures
+//@   trusted
+//@   noframe
+//@ func (*Processor).executeTxs
+//@   trusted
+//@   noframe
+//@   ensures result2 == nil ==> !isnil(result1) && !isnil(result1.changedKeys)
+//@ func createView
+//@   trusted
+//@   noframe
+//@ func ValidityWindow.VerifyExpiryReplayProtection
+//@   noframe
+
+// Processor.Execute (C11): every successful verification is dominated by the height / timestamp
+// checks against the PARENT VIEW's metadata and by the state-root comparison with the parent view's
+// root (whatever signature verification, replay protection and transaction execution do).
+//@ func (*Processor).Execute props C11
+//@   noframe
+//@   reveal internalfees.wellFormed
+//@   let r = RuleFactory.GetRules(p.ruleFactory, b.StatelessBlock.Tmstmp)
+//@   let hk = HeightKey(MetadataManager.HeightPrefix(p.metadataManager))
+//@   let tk = TimestampKey(MetadataManager.TimestampPrefix(p.metadataManager))
+//@   requires !isnil(b.StatelessBlock)
+//@   requires stOK(parentView, str(hk)) ==> stU64(parentView, str(hk)) < MAX
+//@   requires stOK(parentView, str(tk)) ==> stU64(parentView, str(tk)) <= MaxInt64 && stU64(parentView, str(tk)) + Rules.GetMinBlockGap(r) <= MaxInt64 && stU64(parentView, str(tk)) + Rules.GetMinEmptyBlockGap(r) <= MaxInt64
+//@   requires Rules.GetMinBlockGap(r) >= 0 && Rules.GetMinEmptyBlockGap(r) >= 0
+//@   requires snd(state.Immutable.GetValue(parentView, FeeKey(MetadataManager.FeePrefix(p.metadataManager)))) == nil ==> len(fst(state.Immutable.GetValue(parentView, FeeKey(MetadataManager.FeePrefix(p.metadataManager))))) == 488
+//@   requires forall i int :: 0 <= i && i < 5 ==> internalfees.Rules.GetWindowTargetUnits(r)[i] > 0 && internalfees.Rules.GetUnitPriceChangeDenominator(r)[i] > 0
+//@   requires str(hk) != str(tk) && str(hk) != str(FeeKey(MetadataManager.FeePrefix(p.metadataManager))) && str(tk) != str(FeeKey(MetadataManager.FeePrefix(p.metadataManager)))
+//@   ensures err == nil ==> b.StatelessBlock.Hght == stU64(parentView, str(hk)) + 1
+//@   ensures err == nil ==> b.StatelessBlock.Tmstmp >= stU64(parentView, str(tk)) + Rules.GetMinBlockGap(r)
+//@   ensures err == nil && len(b.StatelessBlock.Txs) == 0 ==> b.StatelessBlock.Tmstmp >= stU64(parentView, str(tk)) + Rules.GetMinEmptyBlockGap(r)
+//@   ensures err == nil ==> b.StatelessBlock.StateRoot == fst(merkledb.View.GetMerkleRoot(parentView))
